@@ -332,5 +332,32 @@ func streamCorpus(ctx *Ctx) *Result {
 		}
 		res.Sample(r.File + ": " + trunc(r.Run, 200))
 	}
+	// every operand byte of BIND (target nibble, selector nibble), over zero, one and three blocks of the
+	// bound type: what a version 1.1 file with that byte means, valid or not, is compared with the model
+	for nblocks := 0; nblocks <= 3; nblocks += 1 {
+		if nblocks == 2 {
+			continue
+		}
+		for b := 0; b < 256; b++ {
+			var code []byte
+			for k := 0; k < nblocks; k++ {
+				code = append(code, oDEFBLOCK, 0, 1, oENDBLOCK)
+			}
+			code = append(code, oBIND, 0, byte(b), oRET)
+			pos := make([]int, len(code))
+			for k := range pos {
+				pos[k] = k
+			}
+			data := asmProg{name: "bindop", code: code, consts: []any{"t", ""}, positions: pos, lfs: []int{5}}.bytes()
+			ri := stripXstats(implRun(data, false))
+			rm := stripXstats(ask(d, "RUN "+hxe(data)+" 0"))
+			res.Eval(1)
+			res.Count("bind-operand-sweep", 1)
+			if ri != rm {
+				res.Fail(Failure{Kind: "model-diff", Op: fmt.Sprintf("RUN of a hand-assembled file: %d block(s) of type t, then BIND t with operand byte 0x%02X", nblocks, b),
+					Impl: trunc(ri, 800), Model: trunc(rm, 800), Note: "what a BIND operand byte means"})
+			}
+		}
+	}
 	return res
 }
